@@ -178,7 +178,8 @@ def c02(run):
          ("lay_set", ["set:k1:collide:30:400:set", "set:k2:zero:14:250:set", "set:k3:fewpos:20:250:set", "set:k5:max:14:200:set",
                       "set:k6:collide:20:250:setalg", "set:k7:onegroup:12:200:set", "set:k8t:collide:20:400:setalg:" + F]),
          ("lay_table", ["table:te24:collide:20:400:table:" + F, "table:te208:zero:12:250:table", "table:tea64:fewpos:16:250:table", "table:t1:collide:30:300:table"]),
-         ("zst", ["table:t0:zero:1:1500:tablezst", "table:t0:max:1:600:tablezst"], {"module": "HbZstTrace.tla", "cfg": "HbZstTrace.cfg"})],
+         ("zst", ["table:t0:zero:1:1500:tablezst", "table:t0:max:1:600:tablezst"], {"module": "HbZstTrace.tla", "cfg": "HbZstTrace.cfg"}),
+         ("lay_dropfault", ["map:kv16:collide:20:500:iter:fault=30,fclass=drop", "table:te24:zero:14:300:table:fault=25,fclass=drop", "set:k8t:collide:16:300:set:fault=25,fclass=drop"])],
         [("lay2", ["map:kv24:collide:24:3000:wide:" + F, "map:k5v4:zero:14:2000:wide", "set:k8:mixed:40:2000:set", "table:te32:lowbit:14:2000:table:" + F]),
          ("layg", ["map:kv16:collide:24:2000:wide:" + F, "map:kva64:zero:14:1000:iter", "set:k3:collide:20:1000:set", "table:te24:zero:12:1500:table"], G),
          ("zstg", ["table:t0:zero:1:3000:tablezst"], {"backend": "generic", "module": "HbZstTrace.tla", "cfg": "HbZstTrace.cfg"}),
@@ -191,7 +192,8 @@ def c02(run):
 def c04(run):
     return generic_check(run, [("MC_map_w2fault.cfg", "MC_map.tla", {"timeout": 400})], [],
         [("fault", ["map:kv16:collide:20:1300:fault:fault=30,plan2=fewpos", "map:k4v4:zero:14:700:fault:fault=30,plan2=collide"]),
-         ("fault2", ["set:k8t:collide:20:600:setalg:fault=25,plan2=mixed", "table:te24:zero:14:600:table:fault=25", "map:kv24:onegroup:12:500:fault:fault=30"])],
+         ("fault2", ["set:k8t:collide:20:600:setalg:fault=25,plan2=mixed", "table:te24:zero:14:600:table:fault=25", "map:kv24:onegroup:12:500:fault:fault=30"]),
+         ("faultbh", ["map:kv16:collide:20:800:two:fault=60,fclass=bh_clone,plan2=fewpos", "set:k8t:zero:14:500:setalg:fault=50,fclass=bh_clone,plan2=collide"])],
         [("fault3", ["map:kv16:collide:20:5000:fault:fault=30,plan2=fewpos", "map:k8v4:max:20:3000:fault:fault=35", "map:kv200:fewpos:24:2000:fault:fault=30"]),
          ("fault4", ["set:k8t:zero:14:3000:set:fault=25", "table:te208:collide:20:3000:table:fault=25", "map:kv16:collide:20:2000:two:fault=40,fclass=bh_clone,plan2=fewpos"]),
          ("faultg", ["map:kv16:collide:20:3000:fault:fault=30,plan2=fewpos", "map:k4v4:zero:14:2000:fault:fault=30"], G)],
@@ -204,6 +206,8 @@ def c05(run):
     return generic_check(run, [], [],
         [("chaos", ["map:kv16:zero:16:1200:wide:chaos=1", "map:kv16:collide:20:600:wide:chaoseq=1", "map:k4v4:zero:14:500:basic:chaos=1,chaoseq=1"]),
          ("chaos2", ["map:kv24:fewpos:24:900:iter:chaos=1", "map:kv16:max:16:700:two:chaos=1", "map:kv16:zero:14:500:entry:chaoseq=1"]),
+         ("chaosset", ["set:k8t:zero:16:800:set:chaos=1", "set:k8t:collide:16:600:setalg:chaoseq=1", "set:k8t:zero:14:500:setalg:chaos=1,chaoseq=1"]),
+         ("chaostable", ["table:te24:zero:16:800:table:chaos=1", "table:te24:collide:16:600:table:chaoseq=1", "table:te24:zero:14:500:table:chaos=1,chaoseq=1"]),
          {"name": "chaosgoals_w16", "backend": "sse2", "args": ["replay", "--seed", "@SEED@", "corpus/map_w16_chaos.ndjson"]}],
         [("chaos3", ["map:kv16:zero:16:6000:wide:chaos=1", "map:kv200:collide:20:3000:wide:chaos=1,chaoseq=1", "map:kva64:zero:14:2000:cap:chaos=1"]),
          ("chaosg", ["map:kv16:zero:16:3000:wide:chaos=1", "map:kv16:collide:20:2000:entry:chaoseq=1"], G)],
@@ -229,7 +233,8 @@ def c06(run):
     return generic_check(run, [("MC_table_w2q.cfg", "MC_table.tla", {"timeout": 300})], [("MC_table_w2t.cfg", "MC_table.tla", {"timeout": 1500, "workers": 12})],
         [("table", ["table:te24:collide:20:1200:table", "table:te24:zero:12:700:table:plan2=mixed", "table:t1:fewpos:16:500:table"]),
          ("table2", ["table:te32:onegroup:14:800:table", "table:te24:mixed:30:600:table:plan2=collide"]),
-         ("tablewrap", ["table:te24:wrap:30:900:table", "table:te24:spread:26:600:table:plan2=wrap"])],
+         ("tablewrap", ["table:te24:wrap:30:900:table", "table:te24:spread:26:600:table:plan2=wrap"]),
+         ("zst", ["table:t0:zero:1:1200:tablezst", "table:t0:max:1:500:tablezst"], {"module": "HbZstTrace.tla", "cfg": "HbZstTrace.cfg"})],
         [("table3", ["table:te208:collide:24:4000:table", "table:tea64:max:16:3000:table", "table:te24:lowbit:14:3000:table"]),
          ("tableg", ["table:te24:collide:20:3000:table", "table:t1:zero:14:2000:table"], G)],
         "HashTable operations with caller-supplied hashes (two plans, duplicates of equal elements) validated against the multiset specification; iter_hash outputs, remove + re-insert through the returned VacantEntry, entry() at full load", tgoals=True, egoals=("table",))
@@ -263,7 +268,8 @@ def c09(run):
          ("iterset", ["set:k8t:collide:40:700:set", "set:k1:zero:30:500:set"])],
         [("iter2", ["map:kv16:onegroup:12:3000:iter", "map:kv200:fewpos:60:3000:iter", "map:kv16:max:40:3000:iter"]),
          ("iterg", ["map:kv16:collide:40:3000:iter", "set:k8t:zero:30:2000:set"], G)],
-        "every wrapper iterator walked with next/fold switch and clone points in every visited state; bucket index of each yield and every size_hint/len validated", goals=True, tgoals=True)
+        "every wrapper iterator walked with next/fold switch and clone points in every visited state; bucket index of each yield and every size_hint/len validated; the invariant clauses the count-terminated iterators rely on "
+        "(items = #FULL, FULL <=> initialised slot, mirror bytes) on every observed state incl. the states left behind by a panicking hasher", goals=True, tgoals=True, fault_corpus=True)
 
 
 def c10(run):
@@ -271,6 +277,7 @@ def c10(run):
         [("sel", ["map:kv16:collide:40:1200:iter", "map:kv24:zero:24:700:iter"]),
          ("selset", ["set:k8t:collide:30:800:set", "table:te24:collide:24:600:table"]),
          ("selwrap", ["map:kv16:wrap:40:1200:iter", "table:te24:wrap:30:600:table", "set:k8t:wrap:30:600:set", "map:kv16:spread:40:600:iter"]),
+         ("selzst", ["table:t0:zero:1:1200:tablezst"], {"module": "HbZstTrace.tla", "cfg": "HbZstTrace.cfg"}),
          ("selfault", ["map:kv16:collide:30:700:iter:fault=30,fclass=drop", "table:te24:zero:14:400:table:fault=25,fclass=drop",
                        "set:k8t:collide:20:400:set:fault=30,fclass=drop"])],
         [("sel2", ["map:kv16:onegroup:12:3000:iter", "map:kv200:fewpos:60:3000:iter"]),
